@@ -62,15 +62,22 @@ def pIn (okB okP : Nat → Bool) : PExpr → Bool
   | .pre k x => okP k && pIn okB okP x
   | .paren x => pIn okB okP x
 
-/-- the real tokens fit the binding powers `P` on the operators satisfying `okB` / `okP` -/
+/-- a token that may follow an identifier atom without being taken for a segment, call or access -/
+def FOK (bb : Nat) (nx : Lex.Tok) : Prop :=
+  nx.id ≠ T_DOT ∧ nx.id ≠ T_LPAREN ∧ nx.id ≠ T_LBRACK ∧ (TP.nodeOf bb nx).tok = some nx
+
+/-- the real tokens fit the binding powers `P` on the operators satisfying `okB` / `okP`; an atom is a terminal
+    (number, string, true / false / null) or an identifier -/
 structure Good (P : Powers) (okB okP : Nat → Bool) : Prop where
-  atom : ∀ n, Real (R.atom n) ∧ (TP.nodeOf R.bb (R.atom n)).nud = .term
+  atom : ∀ n, Real (R.atom n) ∧ ((TP.nodeOf R.bb (R.atom n)).nud = .term ∨
+    ((TP.nodeOf R.bb (R.atom n)).nud = .identifier ∧ (TP.nodeOf R.bb (R.atom n)).tok = some (R.atom n)))
   op : ∀ k, okB k = true → Real (R.op k) ∧ (TP.nodeOf R.bb (R.op k)).led ≠ Led.none ∧
-    (TP.nodeOf R.bb (R.op k)).binding = P.bp k
+    (TP.nodeOf R.bb (R.op k)).binding = P.bp k ∧ FOK R.bb (R.op k)
   pre : ∀ k, okP k = true → Real (R.pre k) ∧ (TP.nodeOf R.bb (R.pre k)).nud = .prefix ∧
     (TP.nodeOf R.bb (R.pre k)).binding + 20 = P.pbp k
   lp : Real R.lp ∧ (TP.nodeOf R.bb R.lp).nud = .inner
-  rp : Real R.rp ∧ (TP.nodeOf R.bb R.rp).tok = some R.rp ∧ R.rp.id = T_RPAREN ∧ (TP.nodeOf R.bb R.rp).binding = 0
+  rp : Real R.rp ∧ (TP.nodeOf R.bb R.rp).tok = some R.rp ∧ R.rp.id = T_RPAREN ∧ (TP.nodeOf R.bb R.rp).binding = 0 ∧
+    FOK R.bb R.rp
 
 theorem real_hd (P : Powers) (okB okP : Nat → Bool) (G : Good R P okB okP) :
     ∀ p, pIn okB okP p = true → Real (hdT R p)
@@ -85,7 +92,7 @@ theorem real_hd (P : Powers) (okB okP : Nat → Bool) (G : Good R P okB okP) :
 
 /-- fuel that suffices for a printed tree -/
 def cost : PExpr → Nat
-  | .atom _ => 2
+  | .atom _ => 3
   | .bin _ l r => cost l + cost r + 2
   | .pre _ x => cost x + 3
   | .paren x => cost x + 3
@@ -95,32 +102,36 @@ def cost : PExpr → Nat
     tree's real tokens followed by `nx` returns `res` (for all fuels ≥ c + cost). -/
 theorem real_ok_parses (P : Powers) (okB okP : Nat → Bool) (G : Good R P okB okP) :
     ∀ (p : PExpr) (m m' f : Nat), m ≤ m' → Ok P p m' f → pIn okB okP p = true →
-    ∀ (nx : Lex.Tok) (rest : List Lex.Tok) (res : Res Node) (c : Nat), Real nx → (TP.nodeOf R.bb nx).binding ≤ f →
+    ∀ (nx : Lex.Tok) (rest : List Lex.Tok) (res : Res Node) (c : Nat), Real nx → FOK R.bb nx →
+    (TP.nodeOf R.bb nx).binding ≤ f →
     (∀ F, c ≤ F → loopLed F m (nodeE R p.strip) (st R.bb (TP.nodeOf R.bb nx) rest) = res) →
     ∀ F, c + cost p ≤ F → Ecal.Parse.run F m (st R.bb (TP.nodeOf R.bb (hdT R p)) (tlT R p ++ nx :: rest)) = res := by
   intro p
   induction p with
   | atom n =>
-    intro m m' f _ _ _ nx rest res c hn _ hk F hF
-    obtain ⟨F', rfl⟩ : ∃ F', F = F' + 2 := ⟨F - 2, by simp only [cost] at hF; omega⟩
+    intro m m' f _ _ _ nx rest res c hn hfo _ hk F hF
+    obtain ⟨F', rfl⟩ : ∃ F', F = F' + 3 := ⟨F - 3, by simp only [cost] at hF; omega⟩
     simp only [hdT, tlT, List.nil_append]
-    exact run_term_k F' m R.bb (R.atom n) nx rest res hn (G.atom n).2 (hk _ (by simp only [cost] at hF; omega))
+    rcases (G.atom n).2 with hterm | ⟨hid, htok⟩
+    · exact run_term_k (F' + 1) m R.bb (R.atom n) nx rest res hn hterm (hk _ (by simp only [cost] at hF; omega))
+    · exact run_identifier_k F' m R.bb (R.atom n) nx rest res hn hid htok hfo.2.2.2 hfo.1 hfo.2.1 hfo.2.2.1
+        (hk _ (by simp only [cost] at hF; omega))
   | bin k l r ihl ihr =>
-    intro m m' f hmm hok hin nx rest res c hn hb hk F hF
+    intro m m' f hmm hok hin nx rest res c hn hfo hb hk F hF
     obtain ⟨hm, hf, okl, okr⟩ := hok
     simp only [pIn, Bool.and_eq_true] at hin
     obtain ⟨⟨hk1, hinl⟩, hinr⟩ := hin
-    obtain ⟨hro, hled, hbo⟩ := G.op k hk1
+    obtain ⟨hro, hled, hbo, hfop⟩ := G.op k hk1
     simp only [hdT, tlT, List.append_assoc, List.cons_append, cost] at hF ⊢
     -- the left operand, followed by the operator
-    apply ihl m (P.bp k - 1) (P.bp k) (by omega) okl hinl (R.op k) _ res (c + cost r + 2) hro (by omega)
+    apply ihl m (P.bp k - 1) (P.bp k) (by omega) okl hinl (R.op k) _ res (c + cost r + 2) hro hfop (by omega)
     · intro F1 hF1
       obtain ⟨f1, rfl⟩ : ∃ f1, F1 = f1 + 1 := ⟨F1 - 1, by omega⟩
       -- one infix step: the right operand, then the outer continuation
       apply loopLed_infix f1 m R.bb (nodeE R l.strip) (R.op k) (hdT R r) (tlT R r ++ nx :: rest)
         (nodeE R r.strip) (TP.nodeOf R.bb nx) rest res (real_hd R P okB okP G r hinr) hled (by omega)
       · rw [hbo]
-        apply ihr (P.bp k) (P.bp k) f (Nat.le_refl _) okr hinr nx rest _ 1 hn hb
+        apply ihr (P.bp k) (P.bp k) f (Nat.le_refl _) okr hinr nx rest _ 1 hn hfo hb
         · intro F2 hF2
           obtain ⟨f2, rfl⟩ : ∃ f2, F2 = f2 + 1 := ⟨F2 - 1, by omega⟩
           exact loopLed_stop f2 (P.bp k) R.bb _ _ rest (by omega)
@@ -128,7 +139,7 @@ theorem real_ok_parses (P : Powers) (okB okP : Nat → Bool) (G : Good R P okB o
       · exact hk f1 (by omega)
     · omega
   | pre k x ih =>
-    intro m m' f hmm hok hin nx rest res c hn hb hk F hF
+    intro m m' f hmm hok hin nx rest res c hn hfo hb hk F hF
     obtain ⟨hf, okx⟩ := hok
     simp only [pIn, Bool.and_eq_true] at hin
     obtain ⟨hk1, hinx⟩ := hin
@@ -139,24 +150,24 @@ theorem real_ok_parses (P : Powers) (okB okP : Nat → Bool) (G : Good R P okB o
     apply run_prefix_k f0 m R.bb (R.pre k) (hdT R x) (tlT R x ++ nx :: rest) (nodeE R x.strip) (TP.nodeOf R.bb nx) rest res
       (real_hd R P okB okP G x hinx) hnud
     · rw [hbp]
-      apply ih (P.pbp k) (P.pbp k) f (Nat.le_refl _) okx hinx nx rest _ 1 hn hb
+      apply ih (P.pbp k) (P.pbp k) f (Nat.le_refl _) okx hinx nx rest _ 1 hn hfo hb
       · intro F2 hF2
         obtain ⟨f2, rfl⟩ : ∃ f2, F2 = f2 + 1 := ⟨F2 - 1, by omega⟩
         exact loopLed_stop f2 (P.pbp k) R.bb _ _ rest (by omega)
       · omega
     · exact hk _ (by omega)
   | paren x ih =>
-    intro m m' f hmm hok hin nx rest res c hn hb hk F hF
+    intro m m' f hmm hok hin nx rest res c hn hfo hb hk F hF
     simp only [pIn] at hin
     obtain ⟨hrl, hnud⟩ := G.lp
-    obtain ⟨hrr, htok, hid, hb0⟩ := G.rp
+    obtain ⟨hrr, htok, hid, hb0, hforp⟩ := G.rp
     simp only [cost] at hF
     obtain ⟨f0, rfl⟩ : ∃ f0, F = f0 + 2 := ⟨F - 2, by omega⟩
     simp only [hdT, tlT, List.cons_append, List.append_assoc, List.nil_append]
     apply run_inner f0 m R.bb R.lp (hdT R x) R.rp nx (tlT R x ++ R.rp :: nx :: rest) rest (nodeE R x.strip) res
       (real_hd R P okB okP G x hin) hn hnud htok hid
     · have := ih 0 0 0 (Nat.le_refl _) hok hin R.rp (nx :: rest)
-        (.ok (nodeE R x.strip) (st R.bb (TP.nodeOf R.bb R.rp) (nx :: rest))) 1 hrr (by omega)
+        (.ok (nodeE R x.strip) (st R.bb (TP.nodeOf R.bb R.rp) (nx :: rest))) 1 hrr hforp (by omega)
         (by
           intro F2 hF2
           obtain ⟨f2, rfl⟩ : ∃ f2, F2 = f2 + 1 := ⟨F2 - 1, by omega⟩
@@ -184,10 +195,11 @@ def prefixId (name : String) : Nat :=
   ((List.range 80).find? fun id => match table id with
     | some (n, _, x, _) => n = name && x = Nud.prefix | none => false).getD 0
 
-/-- real tokens for the operators of the real table; atoms are number tokens -/
+/-- real tokens for the operators of the real table; atoms are number tokens (even index) and identifier tokens (odd) -/
 def realToks : RealToks where
   bb := 0
-  atom n := ⟨6, 0, [48 + n % 10], false, false, 0, 1, 1⟩
+  atom n := if n % 2 = 0 then ⟨6, 0, [48 + n / 2 % 10], false, false, 0, 1, 1⟩
+            else ⟨7, 0, [97 + n / 2 % 26], true, false, 0, 1, 1⟩   -- even: a number token, odd: an identifier token
   op k := mkTok (infixId (((infixOps[k]?).map (·.1)).getD ""))
   pre k := mkTok (prefixId (((prefixOps[k]?).map (·.1)).getD ""))
   lp := mkTok T_LPAREN
@@ -214,16 +226,41 @@ def checkPre (k : Nat) : Bool :=
 def tablesAgree : Bool :=
   (List.range infixOps.length).all checkOp && (List.range prefixOps.length).all checkPre
 
+def checkOpF (k : Nat) : Bool :=
+  let t := realToks.op k
+  t.id != T_DOT && t.id != T_LPAREN && t.id != T_LBRACK && (TP.nodeOf 0 t).tok == some t
+
+/-- no infix operator token of the table can be taken for the continuation of an identifier (`.`, `(`, `[`) -/
+theorem op_followers_ok : (List.range infixOps.length).all checkOpF = true := by decide
+
 theorem good_realToks (table_agrees : tablesAgree = true) : Good realToks realPowers okB okP where
-  atom n := ⟨by
-      show (6 : Nat) ≠ 0 ∧ (6 : Nat) ≠ 3 ∧ (6 : Nat) ≠ 4 ∧ (table 6).isSome = true
-      decide, rfl⟩
+  atom n := by
+    by_cases h : n % 2 = 0
+    · refine ⟨?_, Or.inl ?_⟩
+      · show TP.Real (if n % 2 = 0 then _ else _)
+        rw [if_pos h]
+        show (6 : Nat) ≠ 0 ∧ (6 : Nat) ≠ 3 ∧ (6 : Nat) ≠ 4 ∧ (table 6).isSome = true
+        decide
+      · show (TP.nodeOf 0 (if n % 2 = 0 then _ else _)).nud = _
+        rw [if_pos h]; rfl
+    · refine ⟨?_, Or.inr ⟨?_, ?_⟩⟩
+      · show TP.Real (if n % 2 = 0 then _ else _)
+        rw [if_neg h]
+        show (7 : Nat) ≠ 0 ∧ (7 : Nat) ≠ 3 ∧ (7 : Nat) ≠ 4 ∧ (table 7).isSome = true
+        decide
+      · show (TP.nodeOf 0 (if n % 2 = 0 then _ else _)).nud = _
+        rw [if_neg h]; rfl
+      · show (TP.nodeOf 0 (if n % 2 = 0 then _ else _)).tok = some (if n % 2 = 0 then _ else _)
+        rw [if_neg h]; rfl
   op k hk := by
     have hk' : k < infixOps.length := by simpa [okB] using hk
     have := List.all_eq_true.mp (Bool.and_eq_true_iff.mp table_agrees).1 k (List.mem_range.mpr hk')
     simp only [checkOp, Bool.and_eq_true, bne_iff_ne, ne_eq, beq_iff_eq] at this
     obtain ⟨⟨⟨⟨⟨h0, h3⟩, h4⟩, hs⟩, hl⟩, hb⟩ := this
-    exact ⟨⟨h0, h3, h4, hs⟩, hl, hb⟩
+    have hf := List.all_eq_true.mp op_followers_ok k (List.mem_range.mpr hk')
+    simp only [checkOpF, Bool.and_eq_true, bne_iff_ne, ne_eq, beq_iff_eq] at hf
+    obtain ⟨⟨⟨f1, f2⟩, f3⟩, f4⟩ := hf
+    exact ⟨⟨h0, h3, h4, hs⟩, hl, hb, f1, f2, f3, f4⟩
   pre k hk := by
     simp only [okP, Bool.and_eq_true, decide_eq_true_eq, Bool.not_eq_true'] at hk
     have := List.all_eq_true.mp (Bool.and_eq_true_iff.mp table_agrees).2 k (List.mem_range.mpr hk.1)
@@ -231,6 +268,6 @@ theorem good_realToks (table_agrees : tablesAgree = true) : Good realToks realPo
     obtain ⟨⟨⟨⟨⟨h0, h3⟩, h4⟩, hs⟩, hl⟩, hb⟩ := this
     exact ⟨⟨h0, h3, h4, hs⟩, hl, hb⟩
   lp := ⟨by unfold Real; decide, by decide⟩
-  rp := ⟨by unfold Real; decide, by decide, by decide, by decide⟩
+  rp := ⟨by unfold Real; decide, by decide, by decide, by decide, by unfold FOK; decide⟩
 
 end Ecal.C08.RP
